@@ -460,6 +460,28 @@ def gen_project(rng, idx: int, kind: str, extra: T.List[str], nsites: int) -> T.
         L.append(f"run_target('rt9', command: [py, dump{''.join(', ' + msn(a) for a in rargs)}])")
         sites.append(Site('rt9', 'run_target', 'plain', rargs, []))
         return sites, '\n'.join(L) + '\n'
+    if kind == 'rspmix':
+        # for every rule kind with an _RSP variant: statements below and above the (lowered) threshold that share the
+        # same hostile arguments; one family is first seen in a short statement, the other first in a long one
+        def fam(tag):
+            base = ['a\\b', "it's", '"q"', 'a b', '$x', 'tail\\', '\\\\', "\\'"]
+            more = [hostile(rng, extra, False)[:16] for _ in range(2)]
+            return [f'-D{tag}{j}=' + v for j, v in enumerate(base + more)]
+        pad_c = [f'-DPAD{j}=' + 'x' * 30 for j in range(60)]
+        pad_l = [f'-Wl,--pad{j}=' + 'x' * 30 for j in range(60)]
+        h1, h2 = fam('H'), fam('G')
+        l1 = ['-Wl,--mv' + a[2:] for a in h1]
+        l2 = ['-Wl,--mw' + a[2:] for a in h2]
+        plan = [('e0', h1, l1), ('e1', h1 + pad_c, l1 + pad_l), ('e2', h2 + pad_c, l2 + pad_l), ('e3', h2, l2)]
+        for sid, cargs, largs in plan:
+            L.append(f"executable('{sid}', 'main.c', c_args: {msl(cargs)}, link_args: {msl(largs)})")
+            sites.append(Site(sid, 'c_args', 'rspmix', cargs, []))
+            sites.append(Site(sid, 'link_args', 'rspmix', largs, []))
+        L.append("static_library('sl0', 'lib.c')")
+        L.append("static_library('sl1', " + ', '.join(f"'f{j:02d}.c'" for j in range(90)) + ")")
+        sites.append(Site('sl0', 'static_link', 'rspmix', [], []))
+        sites.append(Site('sl1', 'static_link', 'rspmix', [], []))
+        return sites, '\n'.join(L) + '\n'
     if kind == 'rsp':
         pargs = [f'-DP{j}=' + hostile(rng, extra, False) for j in range(rng.randint(1, 3))]
         L.append(f"add_project_arguments({msl(pargs)}, language: 'c')")
@@ -593,6 +615,10 @@ def write_project(root: str, text: str, sites: T.List[Site]) -> T.Tuple[str, str
     with open(os.path.join(src, 'cxxwrap'), 'w') as f:
         f.write(CCWRAP.format(py=sys.executable, dump=os.path.join(src, 'dump.py')).replace('exec cc ', 'exec c++ '))
     os.chmod(os.path.join(src, 'cxxwrap'), 0o755)
+    if any(s.position == 'static_link' for s in sites):
+        for j in range(90):
+            with open(os.path.join(src, f'f{j:02d}.c'), 'w') as f:
+                f.write(f'int mv_f{j}(void) {{ return {j}; }}\n')
     for name, text in (('lib.c', 'int mv_c(void) { return 0; }\n'), ('lib2.cpp', 'int mv_cpp() { return 0; }\n'),
                        ('main2.cpp', 'int mv_main2() { return 0; }\n')):
         with open(os.path.join(src, name), 'w') as f:
@@ -600,12 +626,32 @@ def write_project(root: str, text: str, sites: T.List[Site]) -> T.Tuple[str, str
     return src, cc
 
 
-def meson_setup(root: str, src: str, cc: str, rsp: bool) -> T.Tuple[int, str]:
+def rsp_threshold_env() -> str:
+    """the environment variable the backend reads for the response-file threshold (harvested from the live
+    `get_rsp_threshold`; falls back to the documented name)"""
+    try:
+        import inspect
+        from mesonbuild.utils import universal as U
+        m = re.search(r"environ\.get\(\s*'([A-Z_]+)'", inspect.getsource(U.get_rsp_threshold))
+        if m:
+            return m.group(1)
+    except Exception:       # noqa: BLE001
+        pass
+    return 'MESON_RSP_THRESHOLD'
+
+
+RSPMIX_THRESHOLD = 1200
+
+
+def meson_setup(root: str, src: str, cc: str, rsp: T.Union[bool, int]) -> T.Tuple[int, str]:
     env = dict(os.environ, PATH=FAKEBIN + os.pathsep + os.environ.get('PATH', ''), CC=cc, PYTHONPATH=common.REPO,
                CXX=os.path.join(os.path.dirname(cc), 'cxxwrap'), LC_ALL='C.UTF-8')
-    env.pop('MESON_RSP_THRESHOLD', None)
-    if rsp:
-        env['MESON_RSP_THRESHOLD'] = '0'
+    var = rsp_threshold_env()
+    env.pop(var, None)
+    if rsp is True:
+        env[var] = '0'
+    elif rsp:
+        env[var] = str(int(rsp))
     p = subprocess.run([sys.executable, os.path.join(common.REPO, 'meson.py'), 'setup', os.path.join(root, 'b'), src],
                        env=env, stdout=subprocess.PIPE, stderr=subprocess.STDOUT, timeout=300)
     return p.returncode, p.stdout.decode('utf-8', 'replace')
@@ -724,7 +770,7 @@ def key_of(site: Site) -> str:
 
 def prepare_project(root: str, kind: str, sites: T.List[Site], text: str) -> T.Tuple[int, str]:
     src, cc = write_project(root, text, sites)
-    return meson_setup(root, src, cc, kind == 'rsp')
+    return meson_setup(root, src, cc, RSPMIX_THRESHOLD if kind == 'rspmix' else kind == 'rsp')
 
 
 def run_project(ctx: Ctx, root: str, kind: str, sites: T.List[Site], text: str,
@@ -784,6 +830,8 @@ def _evaluate_project(ctx: Ctx, root: str, b: str, dumpdir: str, kind: str, site
             st = find_build(builds, lambda x: x['outs'] == [f'{s.sid}.p/main.c.o'])
         elif s.position == 'link_args':
             st = find_build(builds, lambda x: x['outs'] == [s.sid])
+        elif s.position == 'static_link':
+            st = find_build(builds, lambda x: x['outs'] == [f'lib{s.sid}.a'])
         elif s.position in ('project_args', 'project_link_args'):
             # checked on every compile / link statement of the project below
             continue
@@ -835,6 +883,10 @@ def _evaluate_project(ctx: Ctx, root: str, b: str, dumpdir: str, kind: str, site
         command = dec(cmd_a[3:])
         is_rsp = st['rule'].endswith('_RSP')
         content = None
+        if s.position == 'static_link':
+            # `rm -f … && ar …` is not started through the compiler stand-in: its words are read with the model's
+            # sh / buildargv specifications below
+            return s, st, 'static', command, (dec(cont_a[3:]) if is_rsp else None)
         if is_rsp:
             content = dec(cont_a[3:])
             rpath = os.path.join(b, dec(rsp_a[3:]))
@@ -854,7 +906,30 @@ def _evaluate_project(ctx: Ctx, root: str, b: str, dumpdir: str, kind: str, site
     proj_args = next((x for x in sites if x.position == 'project_args'), None)
     proj_largs = next((x for x in sites if x.position == 'project_link_args'), None)
     bav_reqs: T.List[T.Tuple[Site, dict, str, T.List[str]]] = []
+    seen_plain: T.Set[str] = set()
+    seen_rsp: T.Set[str] = set()
+    static_kinds: T.Set[bool] = set()
     for s, st, rc2, out, content in results:
+        if s.position in ('c_args', 'link_args'):
+            (seen_rsp if st['rule'].endswith('_RSP') else seen_plain).update(s.args)
+        if s.position == 'static_link':
+            ctx.count()
+            is_rsp = st['rule'].endswith('_RSP')
+            static_kinds.add(is_rsp)
+            ctx.tag('e2e:static_link:' + ('rsp' if is_rsp else 'plain'))
+            r = ctx.driver('quote', [f'bav {enc(content)}' if is_rsp else f'shcmds {enc(out)}'])[0]
+            if is_rsp:
+                words = ldec(r)
+            else:
+                words = ldec(r[3:].split(';')[-1]) if r.startswith('ok:') else None
+            objs = list(st['ins'])
+            if words is None or words[-len(objs):] != objs or words[-len(objs) - 1:-len(objs)] != list(st['outs']):
+                ctx.violation(key_of(s) + ':' + st['rule'], f'static link ({st["rule"]}): the archiver would receive '
+                              f'{words!r}; the statement lists output {st["outs"]!r} and {len(objs)} objects',
+                              case_of(kind, s, {'rule': st['rule']}))
+            else:
+                ctx.seen_nontrivial(('e2e', key_of(s) + st['rule']))
+            continue
         ctx.count()
         ctx.tag(f'e2e:{s.position}:{s.mode}')
         mvid = f'{s.position}-{s.sid}'
@@ -924,6 +999,15 @@ def _evaluate_project(ctx: Ctx, root: str, b: str, dumpdir: str, kind: str, site
                     if msg:
                         ctx.violation(key_of(s), 'through gcc @file: ' + msg, case_of(kind, s, {'gcc_defines': real}))
 
+    if kind == 'rspmix':
+        both = seen_plain & seen_rsp
+        ctx.extra['args_in_both_plain_and_rsp_statements'] = ctx.extra.get('args_in_both_plain_and_rsp_statements', 0) + len(both)
+        if not both:
+            ctx.obligation_failed('vacuity: no argument string occurred in both a plain and an _RSP statement',
+                                  f'plain statements carried {len(seen_plain)} distinct arguments, _RSP statements {len(seen_rsp)}')
+        if static_kinds != {True, False}:
+            ctx.obligation_failed('vacuity: static link statements did not cover both the plain and the _RSP rule',
+                                  repr(sorted(static_kinds)))
     if kind == 'tests':
         run_test_variants(ctx, root, b, kind, sites)
         return
@@ -1346,7 +1430,7 @@ def run_e2e(ctx: Ctx, scratch: str, extra_strings: T.Optional[T.List[str]] = Non
         sites, text = gen_project(rng, idx, 'rsp', extra, 4)
         plan.append(('rsp', sites, text))
         idx += 1
-    for kind in ('argtalk-both', 'argtalk-static', 'argtalk-shared', 'templates', 'crosstalk', 'tests', 'optlike',
+    for kind in ('rspmix', 'argtalk-both', 'argtalk-static', 'argtalk-shared', 'templates', 'crosstalk', 'tests', 'optlike',
                  'nl-env', 'nl-compile'):
         sites, text = gen_project(rng, idx, kind, extra, 1)
         plan.append((kind, sites, text))
